@@ -115,6 +115,13 @@ def array_intrinsic_statements():
         ("z=matmul(mm,nn)", "z = matmul(mm, nn)"),
         ("z=matmul(nn,mm)", "z = matmul(nn, mm)"),
         ("v=matmul(mm,v)", "v = matmul(mm, v)"),
+        # slices of higher-rank arrays as result and as vector operand
+        ("z(:,2)=matmul(mm,z(:,3))", "z(:, 2) = matmul(mm, z(:, 3))"),
+        ("z(:,k)=matmul(mm,z(:,3))", "z(:, k) = matmul(mm, z(:, 3))"),
+        ("z(:,2)=matmul(mm,z(:,2))?", "z(:, 3) = matmul(mm, mm(:, 2))"),
+        ("v=matmul(mm,z(:,2))", "v = matmul(mm, z(:, 2))"),
+        ("z(:,1)=matmul(mm,v)", "z(:, 1) = matmul(mm, v)"),
+        ("z(:,1)=matmul(mm,mm(:,1))", "z(:, 1) = matmul(mm, mm(:, 1))"),
         ("a=sum(q,dim=2)", "a = sum(q, dim=2)"),
         ("a=sum(q,dim=1)", "a(0:m) = sum(q, dim=1)"),
         ("v=sum(mm,dim=1)", "v = sum(mm, dim=1)"),
